@@ -459,3 +459,26 @@ Example C10_collision_witness :
   kresult_solo HitServe (key_of col_keys) 3 col_graph 2 = ROk (UNode 2 [UNode 4 []]) /\
   kresult_solo HitServe (key_of col_keys) 3 col_graph 3 = ROk (UNode 2 []).
 Proof. exact collision_witness_serve. Qed.
+
+(* ---- ... and holds wherever no two descriptors share a key -------------------------------- *)
+(* At an injective key the keyed machine IS the machine of Conc.v: same heap, lock, queue, program
+   counters; map, registered list and the names in the results renamed by the key — for both
+   treatments of a foreign hit (none occurs), both disciplines, all schedules.  So every theorem of
+   this file about [run] is a theorem about the keyed machine on collision-free type sets: the
+   exclusion of collisions is this explicit hypothesis, not a property of the model's type. *)
+Theorem C10_keyed_machine_injective : forall key, key_injective key ->
+  forall pol g d k calls sched,
+    krun pol key d k g calls sched = kmapSt key (run d k g calls sched).
+Proof. exact krun_injective. Qed.
+Print Assumptions C10_keyed_machine_injective.
+
+Theorem C10_keyed_results_collision_free_partial : forall key, key_injective key ->
+  forall pol g k calls, calls_ok calls -> C10_keyed_results pol Guarded key k g calls.
+Proof. exact keyed_results_injective. Qed.
+Print Assumptions C10_keyed_results_collision_free_partial.
+
+Example C10_keyed_injective_example :
+  key_injective (fun n => n + 7) /\
+  results (krun HitCheck (fun n => n + 7) Guarded 3 col_graph col_calls (sched_01 ++ [1; 1]%nat))
+    = [[ROk (UNode 9 [UNode 11 []])]; [ROk (UNode 10 [])]].
+Proof. split; [intros a b H; apply (N.add_cancel_r a b 7); exact H|vm_compute; reflexivity]. Qed.
